@@ -30,12 +30,13 @@ def run_one(entry):
                 if r.returncode != 0:
                     return dict(name=entry["name"], ok=False, detail="patch does not apply: " + r.stderr[-300:] + r.stdout[-300:])
         else:
-            p = os.path.join(d, entry["file"])
-            s = open(p).read()
-            if s.count(entry["old"]) < 1:
-                return dict(name=entry["name"], ok=False, detail="pattern not found")
-            s = s.replace(entry["old"], entry["new"], entry.get("count", 1))
-            open(p, "w").write(s)
+            for ed in entry.get("edits") or [entry]:
+                p = os.path.join(d, ed["file"])
+                s = open(p).read()
+                if s.count(ed["old"]) < 1:
+                    return dict(name=entry["name"], ok=False, detail="pattern not found")
+                s = s.replace(ed["old"], ed["new"], ed.get("count", 1))
+                open(p, "w").write(s)
         res = {}
         allok = True
         for prop in entry["checks"]:
@@ -54,6 +55,7 @@ def run_one(entry):
         return dict(name=entry["name"], ok=allok, results=res)
     finally:
         shutil.rmtree(d, ignore_errors=True)
+        shutil.rmtree(os.path.join(ROOT, ".scratch", os.path.basename(d)), ignore_errors=True)
         # (evidence / replays of scratch-copy runs go to .scratch/, never to evidence/)
 
 
@@ -72,8 +74,12 @@ def main():
             continue
         r = run_one(e)
         print(("OK   " if r["ok"] else "MISS ") + json.dumps(r), flush=True)
+        r.update(expect=e.get("expect", 1), checks=e["checks"], note=e.get("note", ""), when=time.strftime("%Y-%m-%dT%H:%M:%S"),
+                 verif_commit=subprocess.run(["git", "-C", ROOT, "rev-parse", "--short", "HEAD"], capture_output=True, text=True).stdout.strip(),
+                 repo_commit=subprocess.run(["git", "-C", REPO, "rev-parse", "--short", "HEAD"], capture_output=True, text=True).stdout.strip())
+        with open(os.path.join(ROOT, "selftest", "results.jsonl"), "a") as f:
+            f.write(json.dumps(r) + "\n")
         bad += 0 if r["ok"] else 1
-    shutil.rmtree(os.path.join(ROOT, ".scratch"), ignore_errors=True)
     sys.exit(1 if bad else 0)
 
 
